@@ -3,6 +3,7 @@
 // observation lines.  Each case runs in a forked child with a wall-clock limit;
 // a sanitizer report / signal / timeout becomes "fault <class>" / "fault hang".
 #include <elfio/elfio.hpp>
+#include <elfio/elfio_dump.hpp>
 
 #include <cstdio>
 #include <cstdlib>
@@ -22,6 +23,16 @@
 #include <unistd.h>
 
 using namespace ELFIO;
+
+// every "new (std::nothrow) char[n]" of the library lands here (nothing else
+// in the harness uses the nothrow array form); sizes are recorded for C01
+static size_t g_alloc_max = 0;
+void* operator new[]( size_t n, const std::nothrow_t& ) noexcept
+{
+    if ( n > g_alloc_max )
+        g_alloc_max = n;
+    return malloc( n ? n : 1 );
+}
 
 namespace {
 
@@ -45,6 +56,12 @@ std::string unhex( const std::string& h )
 {
     if ( h == "-" )
         return std::string();
+    if ( !h.empty() && h[0] == '@' ) {
+        std::ifstream     f( h.substr( 1 ), std::ios::binary );
+        std::stringstream ss;
+        ss << f.rdbuf();
+        return ss.str();
+    }
     std::string out;
     out.reserve( h.size() / 2 );
     auto hv = []( char c ) -> int {
@@ -100,6 +117,8 @@ class null_compression : public compression_interface
 
 struct World
 {
+    std::unique_ptr<std::istringstream> in_stream;   // must outlive the object (lazy loading)
+    std::string                         tmp_file;
     std::unique_ptr<elfio> el;
     std::map<uint64_t, std::unique_ptr<dynamic_section_accessor>>   dyn;
     std::map<uint64_t, std::unique_ptr<note_section_accessor>>      note_sec;
@@ -139,6 +158,116 @@ enum Tag
     T_STRADD = 3,
     T_STRGET = 4,
 };
+
+// a sink that accepts exactly `cap` bytes in total (stream length), then fails
+class capped_buf : public std::streambuf
+{
+  public:
+    explicit capped_buf( size_t cap ) : cap_( cap ) {}
+    const std::string& content() const { return data_; }
+
+  protected:
+    std::streamsize xsputn( const char* s, std::streamsize n ) override
+    {
+        std::streamsize done = 0;
+        for ( ; done < n; ++done ) {
+            if ( !put_one( s[done] ) )
+                break;
+        }
+        return done;
+    }
+    int_type overflow( int_type ch ) override
+    {
+        if ( traits_type::eq_int_type( ch, traits_type::eof() ) )
+            return traits_type::not_eof( ch );
+        return put_one( traits_type::to_char_type( ch ) ) ? ch : traits_type::eof();
+    }
+    pos_type seekoff( off_type off, std::ios_base::seekdir dir, std::ios_base::openmode ) override
+    {
+        off_type base = dir == std::ios_base::beg ? 0 : dir == std::ios_base::cur ? (off_type)pos_ : (off_type)data_.size();
+        off_type np   = base + off;
+        if ( np < 0 )
+            return pos_type( off_type( -1 ) );
+        pos_ = (size_t)np;
+        return pos_type( np );
+    }
+    pos_type seekpos( pos_type p, std::ios_base::openmode m ) override
+    {
+        return seekoff( off_type( p ), std::ios_base::beg, m );
+    }
+
+  private:
+    bool put_one( char c )
+    {
+        if ( pos_ < data_.size() ) {
+            data_[pos_++] = c;
+            return true;
+        }
+        if ( pos_ > data_.size() ) {
+            // a gap: ELFIO always pads first, so this does not happen
+            if ( pos_ >= cap_ )
+                return false;
+            data_.resize( pos_, '\0' );
+        }
+        if ( data_.size() >= cap_ )
+            return false;
+        data_.push_back( c );
+        ++pos_;
+        return true;
+    }
+    std::string data_;
+    size_t      pos_ = 0;
+    size_t      cap_;
+};
+
+void obs_hdr( World& w, FILE* out )
+{
+    elfio& e = *w.el;
+    put_n( out, 104, { e.get_class(), e.get_encoding(), e.get_elf_version(), e.get_os_abi(), e.get_abi_version(),
+                       e.get_type(), e.get_machine(), e.get_version(), e.get_entry(), e.get_flags(),
+                       e.get_segments_offset(), e.get_sections_offset(), e.get_header_size(),
+                       e.get_segment_entry_size(), e.segments.size(), e.get_section_entry_size(),
+                       e.sections.size(), e.get_section_name_str_index() } );
+}
+
+void obs_sec( World& w, FILE* out, unsigned i )
+{
+    section*    s  = w.el->sections[i];
+    std::string nm = s->get_name();
+    put_b( out, 105, { i, s->get_type(), s->get_flags(), s->get_address(), s->get_offset(), s->get_size(),
+                       s->get_link(), s->get_info(), s->get_addr_align(), s->get_entry_size(),
+                       s->get_name_string_offset() },
+           nm.data(), nm.size() );
+}
+
+void obs_data( World& w, FILE* out, unsigned i )
+{
+    section*    s = w.el->sections[i];
+    const char* p = s->get_data();
+    Elf_Xword   n = s->get_size();
+    put_b( out, 1, { i, n }, p, p ? n : 0, p == nullptr );
+}
+
+void obs_seg( World& w, FILE* out, unsigned j )
+{
+    segment* g = w.el->segments[j];
+    fprintf( out, "n 106 %u %llu %llu %llu %llu %llu %llu %llu %llu %u", j, (unsigned long long)g->get_type(),
+             (unsigned long long)g->get_flags(), (unsigned long long)g->get_offset(),
+             (unsigned long long)g->get_virtual_address(), (unsigned long long)g->get_physical_address(),
+             (unsigned long long)g->get_file_size(), (unsigned long long)g->get_memory_size(),
+             (unsigned long long)g->get_align(), (unsigned)g->get_sections_num() );
+    for ( Elf_Half k = 0; k < g->get_sections_num(); ++k )
+        fprintf( out, " %u", (unsigned)g->get_section_index_at( k ) );
+    fputc( '\n', out );
+}
+
+void obs_segdata( World& w, FILE* out, unsigned j )
+{
+    segment*    g = w.el->segments[j];
+    const char* p = g->get_data();
+    Elf_Xword   n = g->get_file_size();
+    put_b( out, 107, { j, n }, p, p ? n : 0, p == nullptr );
+}
 
 bool handle_ok( const World& w, const std::string& op, const std::vector<std::string>& t )
 {
@@ -299,6 +428,139 @@ void run_case( const Case& c, FILE* out )
             else
                 put_hex( out, r, strlen( r ) );
             fputc( '\n', out );
+        }
+        // ---------------------------------------------------------- segments / load / save / observe
+        else if ( op == "addseg" ) {
+            segment* g = w.el->segments.add();
+            put_n( out, 100, { g->get_index() } );
+        }
+        else if ( op == "segset" ) {
+            segment* g = w.el->segments[(unsigned)num( t[1] )];
+            uint64_t v = num( t[3] );
+            if ( t[2] == "type" ) g->set_type( (Elf_Word)v );
+            else if ( t[2] == "flags" ) g->set_flags( (Elf_Word)v );
+            else if ( t[2] == "align" ) g->set_align( v );
+            else if ( t[2] == "vaddr" ) g->set_virtual_address( v );
+            else if ( t[2] == "paddr" ) g->set_physical_address( v );
+            else if ( t[2] == "filesz" ) g->set_file_size( v );
+            else if ( t[2] == "memsz" ) g->set_memory_size( v );
+        }
+        else if ( op == "segadd" ) {
+            w.el->segments[(unsigned)num( t[1] )]->add_section_index( (Elf_Half)num( t[2] ), num( t[3] ) );
+        }
+        else if ( op == "segaddsec" ) {
+            section* sec = w.el->sections[(unsigned)num( t[2] )];
+            w.el->segments[(unsigned)num( t[1] )]->add_section( sec, sec->get_addr_align() );
+        }
+        else if ( op == "xlat" ) {
+            std::vector<address_translation> v;
+            for ( size_t i = 1; i + 2 < t.size(); i += 3 )
+                v.emplace_back( num( t[i] ), num( t[i + 1] ), num( t[i + 2] ) );
+            w.el->set_address_translation( v );
+        }
+        else if ( op == "load" ) {
+            std::string content = unhex( t[3] );
+            bool        lazy    = t[2] == "1";
+            bool        r;
+            g_alloc_max = 0;
+            if ( t[1] == "file" ) {
+                char tmpl[] = "/tmp/elfio_harness_XXXXXX";
+                int  fd     = mkstemp( tmpl );
+                if ( fd >= 0 ) {
+                    size_t off = 0;
+                    while ( off < content.size() ) {
+                        ssize_t k = ::write( fd, content.data() + off, content.size() - off );
+                        if ( k <= 0 )
+                            break;
+                        off += (size_t)k;
+                    }
+                    ::close( fd );
+                }
+                w.tmp_file = tmpl;
+                r          = w.el->load( std::string( tmpl ), lazy );
+                ::unlink( tmpl );     // an open lazy stream keeps the inode alive
+            }
+            else {
+                w.in_stream.reset( new std::istringstream( content ) );
+                r = w.el->load( *w.in_stream, lazy );
+            }
+            put_n( out, 101, { r ? 1ull : 0ull } );
+        }
+        else if ( op == "save" || op == "savecap" ) {
+            if ( op == "save" ) {
+                std::ostringstream os;
+                bool               r = w.el->save( os );
+                std::string        b = os.str();
+                put_b( out, 102, { r ? 1ull : 0ull }, b.data(), b.size() );
+            }
+            else {
+                capped_buf         buf( (size_t)num( t[1] ) );
+                std::ostream       os( &buf );
+                bool               r = w.el->save( os );
+                const std::string& b = buf.content();
+                put_b( out, 102, { r ? 1ull : 0ull }, b.data(), b.size() );
+            }
+        }
+        else if ( op == "validate" ) {
+            std::string e = w.el->validate();
+            unsigned long long ov = 0, sg = 0;
+            size_t pos = 0;
+            while ( pos < e.size() ) {
+                size_t nl = e.find( '\n', pos );
+                if ( nl == std::string::npos )
+                    nl = e.size();
+                std::string line = e.substr( pos, nl - pos );
+                if ( line.rfind( "Sections ", 0 ) == 0 && line.find( " overlap in file" ) != std::string::npos )
+                    ++ov;
+                else if ( line.rfind( "Virtual address of segment", 0 ) == 0 )
+                    ++sg;
+                pos = nl + 1;
+            }
+            put_n( out, 103, { ov, sg } );
+        }
+        else if ( op == "obshdr" ) {
+            obs_hdr( w, out );
+        }
+        else if ( op == "obssec" ) {
+            obs_sec( w, out, (unsigned)num( t[1] ) );
+        }
+        else if ( op == "obsseg" ) {
+            obs_seg( w, out, (unsigned)num( t[1] ) );
+        }
+        else if ( op == "segdata" ) {
+            obs_segdata( w, out, (unsigned)num( t[1] ) );
+        }
+        else if ( op == "segfree" ) {
+            w.el->segments[(unsigned)num( t[1] )]->free_data();
+        }
+        else if ( op == "obsall" ) {
+            obs_hdr( w, out );
+            unsigned ns = w.el->sections.size(), ng = w.el->segments.size();
+            put_n( out, 108, { ns, ng } );
+            for ( unsigned i = 0; i < ns; ++i ) {
+                obs_sec( w, out, i );
+                obs_data( w, out, i );
+            }
+            for ( unsigned j = 0; j < ng; ++j ) {
+                obs_seg( w, out, j );
+                obs_segdata( w, out, j );
+            }
+        }
+        else if ( op == "allocmax" ) {
+            put_n( out, 109, { g_alloc_max } );
+        }
+        else if ( op == "dump" ) {
+            std::ostringstream os;
+            dump::header( os, *w.el );
+            dump::section_headers( os, *w.el );
+            dump::segment_headers( os, *w.el );
+            dump::symbol_tables( os, *w.el );
+            dump::notes( os, *w.el );
+            dump::modinfo( os, *w.el );
+            dump::dynamic_tags( os, *w.el );
+            dump::section_datas( os, *w.el );
+            dump::segment_datas( os, *w.el );
+            put_n( out, 110, { 1 } );
         }
         // ---------------------------------------------------------- symbols
         else if ( op == "symadd" ) {
